@@ -440,6 +440,14 @@ def enabled(obj, model):
     return T
 
 
+def _missing(v):
+    return v is None or (isinstance(v, (float, np.floating)) and math.isnan(v))
+
+
+def _same_label(a, b):
+    return (_missing(a) and _missing(b)) or selfdesc._eq(a, b)
+
+
 def _check_df(o, model):
     """every DataFrame row: the dissimilarity is the code of the labels in that row"""
     errs = []
@@ -464,6 +472,34 @@ def _check_df(o, model):
                 errs.append(('df-descriptor-mismatch', 'row rid=%d cid=(%d,%d) %s=(%r,%r)' % (
                     r, a, b, name, getattr(row, name + '_1'), getattr(row, name + '_2'))))
                 break
+    # every descriptor of the object - the 'index' descriptors included (columns rdm_index, pattern_index_1/2) -
+    # is exported with the values the object itself holds for the RDM / the two conditions of that row
+    ix = np.triu_indices(n, 1)
+    npairs = n * (n - 1) // 2
+    for dname, vals in o.rdm_descriptors.items():
+        col = 'rdm_index' if dname == 'index' else dname
+        if col not in df.columns:
+            errs.append(('df-descriptor-column-missing', 'no column %r' % col))
+            continue
+        want = [v for v in list(vals) for _ in range(npairs)]
+        got = list(df[col])
+        bad = [k for k in range(len(want)) if not _same_label(got[k], want[k])]
+        if bad:
+            errs.append(('df-rdm-descriptor-column', 'column %r row %d holds %r, the object\'s %r of that RDM is %r' % (
+                col, bad[0], got[bad[0]], dname, want[bad[0]])))
+    for dname, vals in o.pattern_descriptors.items():
+        vals = list(vals)
+        for p in (0, 1):
+            col = ('pattern_index' if dname == 'index' else dname) + '_%d' % (p + 1)
+            if col not in df.columns:
+                errs.append(('df-descriptor-column-missing', 'no column %r' % col))
+                continue
+            want = [vals[i] for i in ix[p]] * len(rids)
+            got = list(df[col])
+            bad = [k for k in range(len(want)) if not _same_label(got[k], want[k])]
+            if bad:
+                errs.append(('df-pattern-descriptor-column', 'column %r row %d holds %r, the object\'s %r of that '
+                             'condition is %r' % (col, bad[0], got[bad[0]], dname, want[bad[0]])))
     return errs
 
 
